@@ -100,9 +100,57 @@ type pipeRun struct {
 
 // replay drives one fresh Conn over the streams.
 func (ps *pipeStreams) replay(chunks []int, readBuf int, cutAt int, cutErr error, wsplit []int, wErrAt int) *pipeRun {
+	return ps.replayX(chunks, readBuf, cutAt, cutErr, wsplit, wErrAt, false)
+}
+
+// replayTwin reads the same client stream through two Conns at once,
+// alternating one Read on each (two connections of one server process).
+func (ps *pipeStreams) replayTwin(chunks []int, readBuf int) (a, b *pipeRun) {
+	core.Beat()
+	a, b = &pipeRun{}, &pipeRun{}
+	if readBuf <= 0 {
+		readBuf = 32768
+	}
+	pk, msg, site := core.Guard(func() {
+		var conns [2]*ech.Conn
+		runs := [2]*pipeRun{a, b}
+		for i := range conns {
+			sc := simnet.NewScript(ps.c)
+			sc.Chunks = chunks
+			c, err := ech.NewConn(context.Background(), sc, keyOptions(ps.keys)...)
+			if err != nil {
+				runs[i].newConnErr = err
+				return
+			}
+			conns[i] = c
+		}
+		bufs := [2][]byte{make([]byte, readBuf), make([]byte, readBuf)}
+		done := [2]bool{}
+		for !done[0] || !done[1] {
+			for i := range conns {
+				if done[i] {
+					continue
+				}
+				n, err := conns[i].Read(bufs[i])
+				runs[i].read = append(runs[i].read, bufs[i][:n]...)
+				if err != nil {
+					runs[i].readErr = err
+					done[i] = true
+				}
+			}
+		}
+	})
+	if pk {
+		a.panicMsg, a.panicSite = msg, site
+	}
+	return
+}
+
+func (ps *pipeStreams) replayX(chunks []int, readBuf int, cutAt int, cutErr error, wsplit []int, wErrAt int, errWithData bool) *pipeRun {
 	core.Beat()
 	pr := &pipeRun{}
 	sc := simnet.NewScript(ps.c)
+	sc.ErrWithData = errWithData
 	sc.Chunks = chunks
 	sc.CutAt = cutAt
 	sc.CutErr = cutErr
@@ -120,7 +168,7 @@ func (ps *pipeStreams) replay(chunks []int, readBuf int, cutAt int, cutErr error
 		}
 	}
 	pk, msg, site := core.Guard(func() {
-		conn, err := ech.NewConn(context.Background(), sc, ech.WithKeys(ps.keys))
+		conn, err := ech.NewConn(context.Background(), sc, keyOptions(ps.keys)...)
 		if err != nil {
 			pr.newConnErr = err
 			return
@@ -347,6 +395,18 @@ func executePipe(t *testing.T, prop string, seed uint64, p *PipePlan) *core.Resu
 					res.Fail(prop, "spin", "Read returned (0, nil)", "%s: %d times", what, pr.zeroSpins)
 				}
 				log = append(log, fmt.Sprintf("chunks %d %d %d", ci, rb, len(pr.read)))
+				if ps.gate < 0 && rb < 4096 {
+					ta, tb := ps.replayTwin(ch, rb)
+					res.Evals++
+					res.Probe("two_connections_interleaved")
+					for ti, tr := range []*pipeRun{ta, tb} {
+						if tr.panicMsg != "" {
+							res.Fail(prop, "panic", tr.panicSite+": "+normMsg(tr.panicMsg), "%s (two connections)", what)
+						} else if tr.newConnErr == nil && !bytes.Equal(tr.read, normVer(tr.read, full)) {
+							res.Fail(prop, "pipe", "bytes of one connection altered while another connection of the process is being read", "%s: connection %d got %d bytes want %d, first diff %d", what, ti, len(tr.read), len(full), firstDiff(tr.read, normVer(tr.read, full)))
+						}
+					}
+				}
 			}
 		}
 	case "cuts":
@@ -357,7 +417,9 @@ func executePipe(t *testing.T, prop string, seed uint64, p *PipePlan) *core.Resu
 			for ei, cerr := range []error{nil, simnet.ErrReset} {
 				// the caller's buffer size rotates with the offset (a small buffer
 				// drains a pending partial record in several calls)
-				pr := ps.replay(nil, []int{0, 1, 7, 300}[(k+ei)%4], k, cerr, nil, -1)
+				// ... and the transport reports the error either on a Read of its own
+				// or together with the last bytes (io.Reader allows both)
+				pr := ps.replayX(nil, []int{0, 1, 7, 300}[(k+ei)%4], k, cerr, nil, -1, (k/4)%2 == 1)
 				res.Evals++
 				res.Fault([]string{simnet.CutEOF, simnet.CutRST}[ei])
 				what := fmt.Sprintf("transport %s after %d of %d bytes", []string{"EOF", "error"}[ei], k, len(ps.c))
